@@ -134,21 +134,27 @@ def r4_objective(ctx):
     import sympy as sp
     from ..normalform import Normalizer, equal, NFUnsupported
 
-    ctx.rule("C17.R4", "scipy objective and scaling wiring", 6)
+    ctx.rule("C17.R4", "scipy objective and scaling wiring", 5)
     ix = ctx.ix
+    from ..astq import Canon
     o = ix.func(SC, "ScipyMinimizeAlgorithm.obj_no_jac", "C17.R4")
-    src = U(o.node)
-    ok = "ips = scaling.unscaling(x)" in src and "state[ip] = ip_val" in src
-    ctx.check(ok, "C17.R4", o, o.node, "the candidate point is unscaled and written into the per-subject state", "the objective no longer evaluates the state at the candidate point", construct="objective writes the point")
-    loss = [s for s in statements(o.node) if isinstance(s, ast.Assign) and U(s.targets[0]) == "loss"]
-    ok = len(loss) == 1 and U(loss[0].value) in ("state['nll_attach'] + self.regularity_factor * state['nll_regul_ind_sum']", "self.regularity_factor * state['nll_regul_ind_sum'] + state['nll_attach']")
-    ctx.check(ok, "C17.R4", o, loss[0] if loss else o.node, "objective = nll_attach + regularity_factor * nll_regul_ind_sum", f"objective is `{U(loss[0].value) if loss else '?'}`")
+    co = Canon(o.node)
+    loops = [l for l in ast.walk(o.node) if isinstance(l, ast.For)]
+    wrote = bool(loops) and co.text(loops[0].iter) == "$3.unscaling($1).items()" and any(isinstance(b_, ast.Assign) and co.text(b_.targets[0]) == f"$2[{U(loops[0].target.elts[0])}]" and U(b_.value) == U(loops[0].target.elts[1]) for b_ in loops[0].body)
+    ctx.check(wrote, "C17.R4", o, loops[0] if loops else o.node, "the candidate point is unscaled and written into the per-subject state", "the objective no longer evaluates the state at the (unscaled) candidate point",
+              construct="objective writes the point")
+    rets = co.returns()
+    ctx.form("C17.R4", o, o.node, rets[0] if rets else "", {"($2['nll_attach'] + $0.regularity_factor * $2['nll_regul_ind_sum']).item()", "($0.regularity_factor * $2['nll_regul_ind_sum'] + $2['nll_attach']).item()"},
+             ["'nll_attach'", "'nll_regul_ind_sum'"], "objective = nll_attach + regularity_factor * nll_regul_ind_sum",
+             "the objective is no longer the attachment plus the (weighted) individual regularity: the optimiser minimises something else than the posterior", construct="objective value")
     p = ix.func(SC, "ScipyMinimizeAlgorithm._get_individual_parameters_patient", "C17.R4")
-    psrc = U(p.node)
-    ok = "initial_point = {n: state.get_tensor_value(n)[0] for n in state.dag.individual_variable_names}" in psrc and "x0=scaling.scaling(initial_point)" in psrc
-    ctx.check(ok, "C17.R4", p, p.node, "starts from the state's current individual values (scaled)", "the optimisation does not start from the state's current individual values", construct="start point")
-    ok = "pyt_individual_params = scaling.unscaling(res.x)" in psrc and "args=(state, scaling)" in psrc and "minimize(obj" in psrc
-    ctx.check(ok, "C17.R4", p, p.node, "returns the unscaled optimiser result, objective bound to the same state and scaling", "the returned point is not the unscaling of the optimiser's result for this state", construct="returned point")
+    cp = Canon(p.node)
+    prets = cp.returns()
+    MIN = "minimize($0.obj_with_jac if $k1 else $0.obj_no_jac, jac=$k1, x0=$k0.scaling({n: $1.get_tensor_value(n)[0] for n in $1.dag.individual_variable_names}), args=($1, $k0), **$0.scipy_minimize_params)"
+    txt = prets[0] if prets else ""
+    ctx.form("C17.R4", p, p.node, txt, {f"($k0.unscaling({MIN}.x), $0.obj_no_jac({MIN}.x, $1, $k0))"}, ["$k0.unscaling(", "x0=$k0.scaling(", "args=($1, $k0)"],
+             "start = scaled current individual values of this state; result = unscaled optimiser output for the same state and scaling",
+             "the optimisation is not started from / evaluated on / mapped back with this subject's state and scaling", construct="start and returned point")
     # scaling / unscaling inverse affine maps
     cls = ix.find_class("_AffineScalings1D")
     un = ix.func(SC, "_AffineScalings1D.unscaling", "C17.R4")
@@ -205,6 +211,8 @@ VARIANTS = [
     V("mean-wrong-axis", "src/leaspy/algo/personalize/mean_posterior.py", "value_var.mean(dim=0)", "value_var.mean(dim=1)", "C17.R3"),
     V("argmax", "src/leaspy/algo/personalize/mode_posterior.py", "indices_iter_best = torch.argmin(", "indices_iter_best = torch.argmax(", "C17.R3"),
     V("mode-ignores-regularity", "src/leaspy/algo/personalize/mode_posterior.py", "attachments + self.regularity_factor * regularities", "attachments", "C17.R3"),
+    V("silent-rename-obj-local", S, "        ips = scaling.unscaling(x)\n        for ip, ip_val in ips.items():", "        unscaled = scaling.unscaling(x)\n        for ip, ip_val in unscaled.items():", None),
+    V("start-from-zero", S, "x0=scaling.scaling(initial_point),", "x0=np.zeros(len(scaling)),", "C17.R4"),
     V("objective-without-prior", S, "state[\"nll_attach\"] + self.regularity_factor * state[\"nll_regul_ind_sum\"]", "state[\"nll_attach\"]", "C17.R4"),
     V("unscaling-not-inverse", S, "scaling.loc + scaling.scale * x[self.slices[n]]", "scaling.loc + x[self.slices[n]]", "C17.R4"),
 ]
